@@ -26,6 +26,9 @@ func TestRegress(t *testing.T) { harness.RunRegress(t) }
 type reqCase struct {
 	Framing spec.Framing `json:"framing"`
 	Req     spec.Req     `json:"req"`
+	// refilled (set by runReq itself): this is the second pass of a case, on a request built from the same payload buffer after the
+	// buffer was refilled in place
+	refilled bool
 }
 
 const kfParser125 = "fc1-fc2-request-parser-limit-125"
@@ -36,6 +39,9 @@ func parsers(f spec.Framing, fc uint8) []cat.Parser {
 
 func runReq(c reqCase) harness.Result {
 	r := c.Req
+	if !c.refilled {
+		r.Payload = append([]byte(nil), c.Req.Payload...) // this run's own buffer (refilled in place for the second pass)
+	}
 	labels := []string{fmt.Sprintf("fc%d", r.FC), c.Framing.String()}
 	legalErr := spec.LegalRequest(r)
 	if legalErr == nil {
@@ -102,6 +108,23 @@ func runReq(c reqCase) harness.Result {
 		}
 		if known != "" {
 			return harness.Result{Excluded: known, Labels: append(labels, "known:"+known)}
+		}
+		if !c.refilled && len(r.Payload) > 0 && (r.FC == 15 || r.FC == 16 || r.FC == 23) {
+			// a program refills its payload buffer with the next values and builds the next request from it (same unit, address, size):
+			// that request must round-trip as itself
+			_ = q.Bytes() // (the last thing the library encoded is this request)
+			for i := range r.Payload {
+				r.Payload[i] ^= 0x3C
+			}
+			if r.FC == 15 {
+				if rem := int(r.Qty) % 8; rem != 0 {
+					r.Payload[len(r.Payload)-1] &= byte(1<<uint(rem)) - 1
+				}
+			}
+			if res := runReq(reqCase{Framing: c.Framing, Req: r, refilled: true}); res.Err != nil {
+				return harness.Fail("request built from the same payload buffer after the buffer was refilled in place: %v", res.Err)
+			}
+			labels = append(labels, "payload-buffer-refilled-in-place")
 		}
 		nt := r.Qty > 1 || len(r.Payload) > 0 || r.FC == 5 || r.FC == 6
 		return harness.Result{NonTrivial: nt, Labels: append(labels, "legal")}
